@@ -4,7 +4,8 @@
    The geometric part (a bin is at least one radius wide, distances, symmetry images) is decided by the
    brute-force oracle of the check, not by a theorem: C20_..._partial in that sense. *)
 From Coq Require Import ZArith QArith List.
-From GV Require Import Geo.Neighbor Geo.NeighborProofs.
+From Coq Require Import Reals.
+From GV Require Import Geo.Neighbor Geo.NeighborProofs Geo.NeighborReal.
 Local Open Scope Z_scope.
 
 (* the shift lambda is floor division, and the bin index it leaves is the non-negative remainder *)
@@ -38,3 +39,36 @@ Theorem C20_bins_to_visit_covers : forall k ratio, (0 <= k)%Z -> (0 <= ratio)%Q 
   (inject_Z k * ratio <= inject_Z (bins_to_visit k ratio) * (1 + (1 # 1000000000)))%Q.
 Proof. exact bins_to_visit_covers_l. Qed.
 Print Assumptions C20_bins_to_visit_covers.
+
+(* ---- the geometric half, over the reals: COMPLETENESS of the periodic walk.
+   Along one axis the fractional coordinate is an affine function of the position whose linear part s has length
+   ar (the reciprocal cell length). A stored mark has wrapped coordinate fa in [0,1) and sits in bin floor(fa n);
+   its lattice copy fa + d is the one located at x. If x is within R of the query q (Euclidean distance) and the
+   walk visits ku >= R * ar * n bins on each side of the bin of the query, the bin of the mark is visited, with
+   exactly the lattice shift d: no image within the radius is missed, and it is reported with the right shift.
+   (ku >= R * ar * n is what bins_to_visit provides up to its 1e-9 guard: C20_bins_to_visit_covers.) *)
+Theorem C20_axis_complete_over_R : forall (n ku d : Z) (fq fa R ar s1 s2 s3 q1 q2 q3 x1 x2 x3 off : R),
+  (0 < n)%Z -> (0 <= ar)%R -> (0 <= R)%R ->
+  (s1² + s2² + s3² = ar²)%R ->
+  (fq = s1 * q1 + s2 * q2 + s3 * q3 + off)%R ->
+  (fa + IZR d = s1 * x1 + s2 * x2 + s3 * x3 + off)%R ->
+  (0 <= fa < 1)%R ->
+  ((x1 - q1)² + (x2 - q2)² + (x3 - q3)² <= R²)%R ->
+  (R * ar * IZR n <= IZR ku)%R ->
+  in_window (Flocq.Core.Raux.Zfloor (fq * IZR n)) ku n (Flocq.Core.Raux.Zfloor (fa * IZR n)) d.
+Proof. exact axis_complete. Qed.
+Print Assumptions C20_axis_complete_over_R.
+
+(* three axes: the slot of the mark, with its lattice shift, is among the (slot, shift) pairs the walk produces *)
+Theorem C20_walk_complete_over_R : forall (nu nv nw ku kv kw du dv dw : Z) (fqx fqy fqz fax fay faz : R),
+  (0 < nu)%Z -> (0 < nv)%Z -> (0 < nw)%Z -> (0 <= ku)%Z -> (0 <= kv)%Z -> (0 <= kw)%Z ->
+  in_window (Flocq.Core.Raux.Zfloor (fqx * IZR nu)) ku nu (Flocq.Core.Raux.Zfloor (fax * IZR nu)) du ->
+  in_window (Flocq.Core.Raux.Zfloor (fqy * IZR nv)) kv nv (Flocq.Core.Raux.Zfloor (fay * IZR nv)) dv ->
+  in_window (Flocq.Core.Raux.Zfloor (fqz * IZR nw)) kw nw (Flocq.Core.Raux.Zfloor (faz * IZR nw)) dw ->
+  In (index_q nu nv (Flocq.Core.Raux.Zfloor (fax * IZR nu)) (Flocq.Core.Raux.Zfloor (fay * IZR nv))
+                    (Flocq.Core.Raux.Zfloor (faz * IZR nw)), (du, dv, dw))
+     (walk nu nv nw (Flocq.Core.Raux.Zfloor (fqx * IZR nu)) (Flocq.Core.Raux.Zfloor (fqy * IZR nv))
+           (Flocq.Core.Raux.Zfloor (fqz * IZR nw)) ku kv kw).
+Proof. exact walk_complete. Qed.
+Print Assumptions C20_walk_complete_over_R.
+
